@@ -154,10 +154,14 @@ def replay_radius(data):
                 bad.append("reported distances are not the distances of the reported positions")
     else:
         cart = uc.to_cartesian(frac)
-        idx = list(data.get("mol", range(len(frac))))
+        idx = list(data.get("mol", range(len(data["centres"])) if data.get("centres") is not None else range(len(frac))))
         if which == "molecule_environment":
-            mol = Molecule.from_arrays(np.array(Z)[idx], cart[idx])
+            # the molecule is given in Cartesian coordinates and may lie anywhere (its atoms are lattice translates of crystal atoms)
+            cen = np.array(data["centres"], float) if data.get("centres") is not None and len(data["centres"]) == len(idx) else cart[idx]
+            mol = Molecule.from_arrays(np.array(Z)[idx], cen)
             _, els_, pos = c.molecule_environment(mol, radius=r)
+            compare(which, pos, els_, cen, True)
+            return bool(bad), bad
         else:
             c._symmetry_unique_molecules = [Molecule.from_arrays(np.array(Z), cart)]
             _, (els_, pos) = c.atom_group_surroundings(idx, radius=r)
